@@ -90,7 +90,11 @@ AllowedEnds(d, h, s) ==
       lim == IF forced # {} /\ MinS(forced) <= cap THEN MinS(forced) ELSE cap
       isF == forced # {} /\ MinS(forced) = lim
       c0 == {p \in s..lim : T0(d, p, s)}  c1 == {p \in s..lim : T1(d, p, s)}  c2 == {p \in s..lim : T2(d, p, s)}
-  IN IF lim = n \/ isF THEN {lim} ELSE IF c0 # {} THEN {MaxS(c0)} ELSE IF c1 # {} THEN c1 ELSE IF c2 # {} THEN c2 ELSE s..lim
+      \* no break before the page is full respects even orphans / widows: the property then allows the content to run over
+      \* ("never extends below the content box WHEN AN EARLIER LEGAL BREAK POINT EXISTS") up to the first break that does
+      later == {p \in (lim + 1)..n : p = n \/ T2(d, p, s) \/ Forcing(Combined(d, p))}
+  IN IF lim = n \/ isF THEN {lim} ELSE IF c0 # {} THEN {MaxS(c0)} ELSE IF c1 # {} THEN c1 ELSE IF c2 # {} THEN c2
+     ELSE (s..lim) \cup {MinS(later)}
 \* why an end is not allowed (for reports)
 WhyNot(d, h, s, e) ==
   LET n == N(d)
